@@ -20,12 +20,13 @@ import (
 // ---------------------------------------------------------------------------
 
 type c08Session struct {
-	Mode  string    `json:"mode"` // flood_on, flood_toggle, closed, server_eof
+	Mode  string    `json:"mode"` // flood_on, flood_toggle, closed, server_eof, write_error
+	Short int       `json:"short"` // write_error: the write of the first call's line takes this many bytes, then fails
 	Calls []c08Case `json:"calls"`
 }
 
 func genC08Session(t *rapid.T) *c08Session {
-	sc := &c08Session{Mode: rapid.SampledFrom([]string{"flood_on", "flood_toggle", "closed", "server_eof"}).Draw(t, "mode")}
+	sc := &c08Session{Mode: rapid.SampledFrom([]string{"flood_on", "flood_toggle", "closed", "server_eof", "write_error", "write_error"}).Draw(t, "mode")}
 	n := rapid.IntRange(1, 6).Draw(t, "ncalls")
 	if strings.HasPrefix(sc.Mode, "flood") {
 		// few short lines: the rate limiter must not start sleeping (each line is charged 2 s + 1/120 s per
@@ -35,6 +36,7 @@ func genC08Session(t *rapid.T) *c08Session {
 			n = rapid.IntRange(1, 3).Draw(t, "ncalls_flood")
 		}
 	}
+	sc.Short = rapid.IntRange(0, 40).Draw(t, "short")
 	maxUnits := 6
 	if strings.HasPrefix(sc.Mode, "flood") {
 		maxUnits = 3
@@ -123,17 +125,25 @@ func runC08Session(sc *c08Session) *Violation {
 		}
 	// (a client that was never connected is not a mode: there every command method blocks for ever on the
 	// not yet created output queue, so nothing reaches any wire - which is all this property is about)
-	case "closed", "server_eof":
+	case "closed", "server_eof", "write_error":
 		if err := tc.connect(); err != nil {
 			return violationf("C08", "connect: %v", err)
 		}
 		if v := welcome(); v != nil {
 			return v
 		}
-		if sc.Mode == "closed" {
+		switch sc.Mode {
+		case "closed":
 			tc.C.Close()
-		} else {
+		case "server_eof":
 			tc.conn().EOFNow()
+		default:
+			// the link breaks while the first call's line is being written: part of it was taken, the
+			// rest must not turn up anywhere as a line of its own
+			tc.conn().ShortFailNext(sc.Short)
+			if v := doCalls(); v != nil {
+				return v
+			}
 		}
 		if !waitCond(stallTimeout(), func() bool { return !tc.C.Connected() }) {
 			return violationf("C08", "client still connected after %s", sc.Mode)
